@@ -9,6 +9,7 @@ import Wharf.Model.Overlay
 import Wharf.Model.Validate
 import Wharf.Model.Bsdiff
 import Wharf.Model.Lru
+import Wharf.Model.Patch
 
 open Wharf Wharf.Util
 
@@ -142,12 +143,71 @@ def doLru (args : List String) : IO String := do
       return ";".intercalate strs ++ s!" hits={lf.hits} misses={lf.misses}"
   | _ => return "bad-op"
 
+/-- read `<n> (path tok)*` from the argument list; returns the files and the remaining arguments -/
+def readFiles : Nat → List String → IO (List (String × ByteArray) × List String)
+  | 0, rest => return ([], rest)
+  | n + 1, path :: tok :: rest => do
+    let b ← readContent tok
+    let (fs, rest') ← readFiles n rest
+    return ((path, b) :: fs, rest')
+  | _, rest => return ([], rest)
+
+def fnvOps (bs : Nat) (olds : Array Content) (src : Content) (ops : List Rsync.Op) : Nat × UInt64 := Id.run do
+  let mut h := fnvOffset
+  let mut n := 0
+  for op in ops do
+    match op with
+    | .data st len =>
+      for k in [0:len] do
+        h := fnvStep h (src.get (st + k))
+      n := n + len
+    | .range f i sp =>
+      match olds[f]? with
+      | none => pure ()
+      | some old =>
+        let opSize := (sp - 1) * bs + Rsync.blockLen bs old.size (i + sp - 1)
+        let len := min opSize (old.size - bs * i)
+        for k in [0:len] do
+          h := fnvStep h (old.get (bs * i + k))
+        n := n + len
+  return (n, h)
+
+/-- `diffbuild <bs> <maxDataOp> <nOld> (path tok)* <nNew> (path tok)*`
+    answers: `<messages> | <per new file: replayed len fnv> | <per new file: blocks weak:len,...> | fresh reused` -/
+def doDiffBuild (args : List String) : IO String := do
+  match args with
+  | bsS :: mxS :: nOldS :: rest =>
+    let (oldFiles, rest) ← readFiles (parseNat nOldS) rest
+    match rest with
+    | nNewS :: rest =>
+      let (newFiles, _) ← readFiles (parseNat nNewS) rest
+      let P : Rsync.Params := { bs := parseNat bsS, maxDataOp := parseNat mxS }
+      let olds := oldFiles.map fun (p, b) => (p, Content.ofByteArray b)
+      let news := newFiles.map fun (p, b) => (p, Content.ofByteArray b)
+      let oldArr := (olds.map (·.2)).toArray
+      let series := Patch.diffAll P olds 0 news
+      let msgs := series.map fun (i, src, ops) =>
+        ";".intercalate ((s!"H 0 {i}" :: ops.map (showOp src)) ++ ["E"])
+      let replays := series.map fun (_, src, ops) =>
+        let (n, h) := fnvOps P.bs oldArr src ops
+        s!"{n} {h}"
+      let sigs := news.map fun (_, c) =>
+        ",".intercalate ((Rsync.fileEntries P.bs 0 c).map fun e =>
+          let len := if c.size = 0 then 0 else Rsync.blockLen P.bs c.size e.index
+          s!"{e.weak.toNat}:{len}")
+      let fresh := series.foldl (fun acc (_, _, ops) => acc + (ops.map Rsync.freshOf).sum) 0
+      let reused := series.foldl (fun acc (_, _, ops) => acc + (ops.map (Rsync.reusedOf P.bs oldArr)).sum) 0
+      return ";".intercalate msgs ++ " | " ++ ";".intercalate replays ++ " | " ++ ";".intercalate sigs ++ s!" | {fresh} {reused}"
+    | _ => return "bad-op"
+  | _ => return "bad-op"
+
 def dispatch (line : String) : IO String := do
   match line.trimAscii.toString.splitOn " " with
   | "c11" :: args => doC11 args
   | "c14" :: args => doC14 args
   | "c18" :: args => doC18 args
   | "c12" :: args => doC12 args
+  | "diffbuild" :: args => doDiffBuild args
   | "lru" :: args => doLru args
   | ["ping"] => return "pong"
   | _ => return "bad-op"
